@@ -132,6 +132,20 @@ impl Lexer {
         }
     }
 
+    /// Skip the rest of the current line, stopping at the newline (or the
+    /// end of the source).
+    ///
+    /// Used after an invalid escape sequence: the characters that follow it
+    /// cannot be lexed meaningfully, but the next line can.
+    fn skip_line(&mut self) {
+        while let Some(current) = self.current() {
+            if current == '\n' {
+                break;
+            }
+            self.consume_char();
+        }
+    }
+
     /// Get a range from the current character.
     ///
     /// This function will return a range with the start and end position
@@ -382,6 +396,9 @@ impl Iterator for Lexer {
                 let string_str = match self.acc_string() {
                     Ok(s) => s,
                     Err(e) => {
+                        if e.kind == StringLexErrorType::InvalidEscapeSequence {
+                            self.skip_line();
+                        }
                         return Some(Err(LexError::InvalidString(
                             Box::new(Token::new(
                                 TokenType::String(String::new()),
@@ -416,12 +433,14 @@ impl Iterator for Lexer {
                         '\\' => match self.escape_code() {
                             Some(ec) => ec,
                             None => {
+                                let end = self.get_pos();
+                                self.skip_line();
                                 return Some(self.invalid_string(
                                     c.to_string(),
                                     StringLexErrorType::InvalidEscapeSequence,
                                     start,
-                                    self.get_pos(),
-                                ))
+                                    end,
+                                ));
                             }
                         },
                         // Can't have a literal newline in a character
@@ -480,7 +499,16 @@ impl Iterator for Lexer {
                 // If the first character is not a symbol char -> error
                 if let Some(current) = self.current() {
                     if !Self::is_symbol_item(current) {
-                        return None;
+                        // Report the character and move past it, so that the
+                        // rest of the file is still lexed.
+                        let pos = self.get_range();
+                        self.consume_char();
+                        return Some(Err(LexError::UnexpectedToken(Box::new(Token::new(
+                            TokenType::Symbol(current.to_string()),
+                            current.to_string(),
+                            pos,
+                            self.source_id,
+                        )))));
                     }
                 }
 
